@@ -30,8 +30,9 @@ open Glom Glom.MV Glom.C10
 /-- can `arg_val(default)` be computed for target `t`? -/
 def argOK (a : Arg) (t : V) : Bool :=
   match a with
-  | .const _ => true
+  | .const _ | .val _ => true
   | .t e => (tGet e t).isSome
+  | .seq _ items => (ofItems items t).isSome
 
 def dfltOK (d : Option Arg) (t : V) : Bool :=
   match d with
@@ -162,7 +163,7 @@ def constDefaultsD : List (KeyKind × Spec × Spec) → Bool
   | [] => true
   | (kind, k, v) :: r =>
     (match kind with
-     | .opt (some (.t _)) => false
+     | .opt (some a) => a.isConst
      | _ => true) && constDefaults k && constDefaults v && constDefaultsD r
 end
 
